@@ -5,6 +5,7 @@ import (
 	"compress/gzip"
 	"encoding/binary"
 	"fmt"
+	"io"
 	"math/rand"
 	"os"
 	"reflect"
@@ -116,8 +117,15 @@ func (m *c15mon) call(idx int, in []byte, entry string, class string, f func() e
 	}
 	delta := int64(a1 - a0)
 	bound := int64(c15AllocConst + c15AllocPerIn*len(in))
-	gz := containsWord(in, 0x3072cfa1)
-	if (delta > bound/4 || class == "valid") && !gz {
+	// gzip expansion of a packed object is exempt — but only expansion that actually happens: the harness inflates
+	// every gzip_packed payload it can find in the input itself (bounded) and allows a multiple of what comes out;
+	// memory reserved on the strength of a size the input merely ANNOUNCES is not expansion
+	if containsWord(in, 0x3072cfa1) {
+		exp := gzipExpansion(in, 0)
+		bound += 16 * exp
+		c.Count("alloc.gzip_inputs", 1)
+	}
+	if delta > bound/4 || class == "valid" {
 		e0 := exactAllocs()
 		wk.Guard(func() { f() })
 		delta = int64(exactAllocs() - e0)
@@ -454,4 +462,37 @@ func c15seed(c *wk.Ctx, m *c15mon, idx int, r *rand.Rand, t reflect.Type, seed [
 	if idx%997 == 0 {
 		c.Sample(map[string]interface{}{"seed_type": tname, "seed_hex": fmt.Sprintf("%x", clipIn(seed)), "mutations": "truncations, 20 word replacements per position, splices; entry points DecodeUnknownObject / Decode(named) / +hints"})
 	}
+}
+
+// gzipExpansion returns how many bytes the gzip_packed objects found in b really inflate to (nested ones
+// included, bounded in depth and volume).
+func gzipExpansion(b []byte, depth int) int64 {
+	if depth > 6 {
+		return 0
+	}
+	var total int64
+	pat := []byte{0xa1, 0xcf, 0x72, 0x30}
+	for off := 0; off+4 <= len(b) && total < 1<<28; {
+		i := bytes.Index(b[off:], pat)
+		if i < 0 {
+			break
+		}
+		off += i + 4
+		payload, ok := tlString(b[off:])
+		if !ok {
+			// a declared length beyond the input: the decoder cannot inflate what is not there
+			continue
+		}
+		zr, err := gzip.NewReader(strings.NewReader(payload))
+		if err != nil {
+			continue
+		}
+		var out bytes.Buffer
+		n, _ := io.Copy(&out, io.LimitReader(zr, 1<<27))
+		total += n
+		if n > 0 && n < 1<<24 {
+			total += gzipExpansion(out.Bytes(), depth+1)
+		}
+	}
+	return total
 }
